@@ -15,7 +15,12 @@ PONames == {"a", "b", "B", "aa", "", "U_e1", "10", "9"}
 POAbsent == {"z", "c"}
 POProps == {S \in SUBSET PONames : Cardinality(S) <= (IF K >= 3 THEN 4 ELSE 3)}
 POOrders == UNION {[1..n -> PONames \cup POAbsent] : n \in 0..K}
+\* names whose byte order differs from the order of their JSON-encoded forms
+PONames2 == {"a", "a!", "a b", "a<b", "aZ", "a_q", "a_bs", "a&", "b"}
+POProps2 == {S \in SUBSET PONames2 : Cardinality(S) >= 2 /\ Cardinality(S) <= (IF K >= 3 THEN 4 ELSE 3)}
+POOrders2 == {<<>>} \cup {<<x>> : x \in {"a", "aZ", "z"}}
 POCases == {[props |-> SetToSeq(S), order |-> o, exp |-> KeyOrder(S, o)] : S \in POProps, o \in POOrders}
+           \cup {[props |-> SetToSeq(S), order |-> o, exp |-> KeyOrder(S, o)] : S \in POProps2, o \in POOrders2}
 
 
 \* ------------------------------------------------------------ RT: schema values (C05)
@@ -66,7 +71,8 @@ RTNested == {[properties |-> [a |-> a]] : a \in RTAtoms} \cup {[items |-> a] : a
 RTValues(z) == IF K >= 2 THEN UNION {RTAtoms, RTPairs, RTNested} ELSE UNION {RTAtoms, RTNested}
 RTInsts == <<Null, Num(R_0), Num(R_1), Num(R_3), Num(R_h), Str(""), Str("a"), Str("ab"), Bool(FALSE), EmptyArr, Arr(<<Num(R_1)>>),
              Arr(<<Num(R_1), Num(R_1)>>), Arr(<<Str("a"), Num(R_3), Num(R_1)>>), EmptyObj, Obj([a |-> Num(R_1)]), Obj([a |-> Str("a"), b |-> Num(R_1)]),
-             Obj([b |-> Num(R_1)])>>
+             Obj([b |-> Num(R_1)]), Obj([b |-> Str("a")]), Obj([b |-> Str("ab")]), Arr(<<Str("a"), Str("ab")>>), Arr(<<Str("b")>>),
+             Obj([b |-> Obj([a |-> Num(R_1)])]), Obj([b |-> Obj([b |-> Num(R_1)])])>>
 Single(s) == [docs |-> <<[uri |-> EmptyURI, s |-> s]>>]
 \* draft-07-only keywords make sense only under the draft-07 $schema; the verdict
 \* vector is taken under the draft the document declares
@@ -79,7 +85,11 @@ KeysOf(s) == IF "bool" \in DOMAIN s THEN {} ELSE Emitted(s)
 DKBases == {IntS, [properties |-> [a |-> IntS], required |-> <<"a">>], [items |-> [minimum |-> R_2]],
             [anyOf |-> <<StrS, [maximum |-> R_1]>>], [not |-> [type |-> "null"]], [additionalProperties |-> FalseS, properties |-> [a |-> TrueS]],
             [contains |-> EmptyFcn, unevaluatedItems |-> FalseS], [prefixItems |-> <<EmptyFcn>>, unevaluatedItems |-> [type |-> "string"]],
-            [properties |-> [a |-> EmptyFcn], additionalProperties |-> EmptyFcn, unevaluatedProperties |-> FalseS]}
+            [properties |-> [a |-> EmptyFcn], additionalProperties |-> EmptyFcn, unevaluatedProperties |-> FalseS],
+            \* keywords that need Resolve-time preparation (regexps), after the decorated place in every walk order
+            [items |-> [pattern |-> "b$"]], [properties |-> [a |-> EmptyFcn, b |-> [pattern |-> "b$"]]],
+            [allOf |-> <<EmptyFcn, [pattern |-> "b$"]>>], [properties |-> [a |-> EmptyFcn, b |-> [patternProperties |-> ("^a" :> FalseS)]]],
+            [anyOf |-> <<[type |-> "null"], [items |-> [pattern |-> "^a"], required |-> <<"zz">>]>>, patternProperties |-> ("^a" :> IntS)]}
 DKDecos ==
   {[title |-> "t"], [description |-> "d"], [comment |-> "c"], [deprecated |-> TRUE], [readOnly |-> TRUE], [writeOnly |-> TRUE],
    [format |-> "email"], [format |-> "no-such-format"], [contentEncoding |-> "base64"], [contentMediaType |-> "application/json"],
